@@ -246,7 +246,8 @@ func rejectedInput(kind string) Input {
 	case "bad:build":
 		base.Setup = head + "type Convergen interface {\n\t// :style arg\n\t// :reverse\n\tM(p *Pet, extra int) *PetDTO\n}\n"
 	case "bad:format":
-		base.Setup = head + "type Convergen interface {\n\t// :literal Label \"unterminated\n\tM(*Pet) *PetDTO\n}\n"
+		// fails only in the final import/format pass: the receiver name is a Go keyword
+		base.Setup = head + "type Convergen interface {\n\t// :recv type\n\tM(*Pet) *PetDTO\n}\n"
 	case "bad:missing":
 		base.Setup = ""
 	default:
